@@ -158,7 +158,7 @@ func (r *rwRT) ruleScopeAgree(seqForHolds bool, mode string) {
 			fmt.Sprintf("%d of %d yielding lowering paths are rooted at %q, which does not absorb the Break signal: a `break` placed after a yield inside it (rewritten to seq.Break() by the branch pass, because it sits in a Bind thunk) leaves the enclosing loop instead of the %s", yielding-rootedOK, yielding, example, strings.TrimSuffix(kind, "Stmt")))
 	}
 	// (b) yielding for-post must run on Continue
-	postBad, postPaths, postShared := 0, 0, 0
+	postBad, postPaths, postShared, postNested := 0, 0, 0, 0
 	where := ""
 	for _, p := range runShape("ForStmt", func(d string) bool { return strings.Contains(d, "post=true") }) {
 		isYieldPost := false
@@ -207,14 +207,43 @@ func (r *rwRT) ruleScopeAgree(seqForHolds bool, mode string) {
 			postBad++
 			where = "(post statement not lowered through the recursion)"
 		}
-		// S5: the lowered post must get a block of its own (not the body's block)
+		// S5: the lowered post must get a block of its own: not the body's block, and not a block nested inside it
 		for _, pb := range postBlocks {
 			if strings.HasPrefix(pb, "ret:") {
 				postShared++
 			}
 		}
+		for _, e := range p.o.St.Events {
+			if e.Kind != "call" || e.Fn == nil || !inRw(e.Fn) || e.Fn.Name() != "rewriteStmt" || len(e.Args) != 4 {
+				continue
+			}
+			if !reachSet(p.o.St, e.Args[1], p.in.leaves)["stmt.Post"] {
+				continue
+			}
+			pobj := p.o.St.Obj(e.Args[3])
+			if pobj == nil || pobj.Before == nil {
+				continue
+			}
+			postAST, ok := pobj.Before["block"].(Ref)
+			if !ok {
+				continue
+			}
+			// is that AST block reachable from something pushed into the body's own block?
+			for _, e2 := range p.o.St.Events {
+				if e2.Kind == "call" && e2.Fn != nil && inRw(e2.Fn) && (e2.Fn.Name() == "push" || e2.Fn.Name() == "pushReturn") && len(e2.Args) >= 2 {
+					if bs, isSym := e2.Args[0].(Sym); isSym && strings.HasPrefix(bs.Name, "ret:") && strings.Contains(bs.Name, "rewriteBlockStmt") {
+						if refReachable(p.o.St, e2.Args[1], postAST.ID) {
+							postNested++
+						}
+					}
+				}
+			}
+		}
 	}
 	if postPaths > 0 && mode == "forpost" {
+		c.check(postNested == 0, "RW.TMPL.FORPOST", "yielding for-post is not nested inside the body's thunk", pos,
+			fmt.Sprintf("%d yielding-post paths: the lowered post statement is never placed in a continuation of the body's statements", postPaths),
+			fmt.Sprintf("%d yielding-post path(s) lower the post statement into a block nested inside the loop body's own thunk (as the continuation of the body's last statement): the post expression resolves names against variables declared in the loop body", postNested))
 		c.check(postShared == 0, "RW.TMPL.FORPOST", "yielding for-post is lowered into a scope of its own", pos,
 			fmt.Sprintf("%d yielding-post paths lower the post statement into a fresh block", postPaths),
 			fmt.Sprintf("%d of %d yielding-post paths append the lowered post statement to the body's own block: the post expression resolves names against variables declared in the loop body (`for ; c; Yield(a) { a := ...; n++ }` yields the body's a)", postShared, postPaths))
@@ -241,9 +270,69 @@ func typeName(t interface{ String() string }) string {
 
 // ------------------------------------------------------------------ RW.TMPL.FOR
 
+// ruleTmplForThunks: a loop condition / post statement is wrapped in a function
+// literal for every form it can take (so it is evaluated by the loop, each time,
+// not once when the loop value is built).
+func (r *rwRT) ruleTmplForThunks() {
+	c := r.c
+	for _, which := range []string{"ForCondFun", "ForPostFun"} {
+		fn := r.method("yieldAst", which)
+		c.fn(relName(fn))
+		pos := r.w.FnPos(fn)
+		var inputs []AV
+		if which == "ForCondFun" {
+			for _, k := range []string{"Ident", "CallExpr", "BinaryExpr", "SelectorExpr"} {
+				inputs = append(inputs, Dyn{T: r.astPtr(k), V: leafSym("x")})
+			}
+		} else {
+			// a bare call f(), x.m(), an inc/dec, an assignment, a send
+			st0 := newState()
+			_ = st0
+			for _, k := range []string{"ExprStmt", "IncDecStmt", "AssignStmt", "SendStmt", "BlockStmt"} {
+				inputs = append(inputs, Dyn{T: r.astPtr(k), V: leafSym("x")})
+			}
+		}
+		var err error
+		paths := 0
+		for _, inp := range inputs {
+			st := newState()
+			y := st.alloc(&Obj{Kind: 's', Fields: map[string]AV{"seqImportedName": mkString("seq"), "funRetParamTy": exprLeaf(r, "T")}})
+			in := r.interp(rwConfig{root: fn, inlineAll: true})
+			// the statement may be inspected: a bare call statement with a callee and no arguments
+			if which == "ForPostFun" {
+				_, callee := r.identNode(st, "f")
+				_, call := r.heapNode(st, "CallExpr", map[string]AV{"Fun": callee, "Args": SliceV{}})
+				in.Fields["x.X"] = call
+			}
+			for _, o := range in.Run(st, fn, []AV{y, inp}, nil) {
+				paths++
+				if o.Panicked {
+					err = fmt.Errorf("%s panics on a %s", which, typeName(inp.(Dyn).T))
+					continue
+				}
+				var want Pat
+				if which == "ForCondFun" {
+					want = ndOpen("FuncLit", map[string]Pat{"Body": nd("BlockStmt", map[string]Pat{"List": lst(nd("ReturnStmt", map[string]Pat{"Results": lst(pLeaf{"x"})}))})})
+				} else {
+					want = ndOpen("FuncLit", map[string]Pat{"Body": nd("BlockStmt", map[string]Pat{"List": lst(pLeaf{"x"})})})
+				}
+				if e2 := matchTmpl(o.St, o.Ret[0], want); e2 != nil && err == nil {
+					err = fmt.Errorf("%s(%s): %v", which, typeName(inp.(Dyn).T), e2)
+				}
+			}
+			r.account(in)
+		}
+		what := map[string]string{"ForCondFun": "loop condition", "ForPostFun": "loop post statement"}[which]
+		c.check(err == nil && paths >= len(inputs), "RW.TMPL.FOR", what+" is wrapped in a thunk", pos,
+			fmt.Sprintf("%d paths over %d forms: always `func() { <the original, once> }` — evaluated by the loop on every round, nothing of it when the loop value is built", paths, len(inputs)),
+			fmt.Sprint("the ", what, " is not always passed as a function literal around the original (part of it is evaluated once, when the loop is constructed): ", err))
+	}
+}
+
 func (r *rwRT) ruleTmplFor() {
 	c := r.c
-	c.min("RW.TMPL.FOR", 4)
+	r.ruleTmplForThunks()
+	c.min("RW.TMPL.FOR", 6)
 	fn := r.method("yieldAst", "CallFor")
 	c.fn(relName(fn))
 	pos := r.w.FnPos(fn)
@@ -314,4 +403,54 @@ func (r *rwRT) ruleTmplFor() {
 			c.check(got == want, "RW.TMPL.FOR", construct, pos, "emits seq."+want+" — no nil node ever reaches the argument list", "emits seq."+got+", expected seq."+want)
 		}
 	}
+}
+
+// refReachable: is heap object id reachable from v?
+func refReachable(st *State, v AV, id int) bool {
+	found := false
+	var walk func(v AV, seen map[int]bool)
+	walk = func(v AV, seen map[int]bool) {
+		if found {
+			return
+		}
+		switch x := v.(type) {
+		case Dyn:
+			walk(x.V, seen)
+		case Ref:
+			if x.ID == id {
+				found = true
+				return
+			}
+			if seen[x.ID] {
+				return
+			}
+			seen[x.ID] = true
+			if o := st.heap[x.ID]; o != nil {
+				for _, f := range o.Fields {
+					walk(f, seen)
+				}
+				for _, f := range o.Before {
+					walk(f, seen)
+				}
+				for _, e := range o.Elems {
+					walk(e, seen)
+				}
+				if o.Val != nil {
+					walk(o.Val, seen)
+				}
+			}
+		case SliceV:
+			for _, e := range x.Elems {
+				walk(e, seen)
+			}
+		case Spread:
+			walk(x.V, seen)
+		case StructV:
+			for _, f := range x.Fields {
+				walk(f, seen)
+			}
+		}
+	}
+	walk(v, map[int]bool{})
+	return found
 }
